@@ -1,5 +1,6 @@
 (** Proofs about [model/B58.v]: positional values, the multi-word arithmetic of
     [Uint<4,32>], [String32::{encode,decode}], and the text / serde forms of [Id]. *)
+From Coq Require Import String.
 From Aranya Require Import base.Tactics gen.GenB58 model.B58.
 Open Scope N_scope.
 
@@ -113,18 +114,18 @@ Proof.
 Qed.
 
 (** * Constants *)
-Lemma W64_pow : W64 = 2 ^ 64. Proof. reflexivity. Qed.
-Lemma W64_256 : 256 ^ 8 = W64. Proof. reflexivity. Qed.
-Lemma W128_sq : W128 = W64 * W64. Proof. reflexivity. Qed.
-Lemma W256_pow : W64 ^ 4 = W256. Proof. reflexivity. Qed.
-Lemma W256_256 : 256 ^ 32 = W256. Proof. reflexivity. Qed.
-Lemma W64_pos : 0 < W64. Proof. reflexivity. Qed.
-Lemma W64_gt1 : 1 < W64. Proof. reflexivity. Qed.
-Lemma RADIX_pow : RADIX = 58 ^ 10. Proof. reflexivity. Qed.
-Lemma RADIX_lt_W64 : RADIX < W64. Proof. reflexivity. Qed.
-Lemma RADIX_pos : 0 < RADIX. Proof. reflexivity. Qed.
-Lemma W256_lt_58_44 : W256 < 58 ^ 44. Proof. reflexivity. Qed.
-Lemma B58_SIZE_44 : B58_SIZE = 44. Proof. reflexivity. Qed.
+Lemma W64_pow : W64 = 2 ^ 64. Proof. vm_compute; reflexivity. Qed.
+Lemma W64_256 : 256 ^ 8 = W64. Proof. vm_compute; reflexivity. Qed.
+Lemma W128_sq : W128 = W64 * W64. Proof. vm_compute; reflexivity. Qed.
+Lemma W256_pow : W64 ^ 4 = W256. Proof. vm_compute; reflexivity. Qed.
+Lemma W256_256 : 256 ^ 32 = W256. Proof. vm_compute; reflexivity. Qed.
+Lemma W64_pos : 0 < W64. Proof. vm_compute; reflexivity. Qed.
+Lemma W64_gt1 : 1 < W64. Proof. vm_compute; reflexivity. Qed.
+Lemma RADIX_pow : RADIX = 58 ^ 10. Proof. vm_compute; reflexivity. Qed.
+Lemma RADIX_lt_W64 : RADIX < W64. Proof. vm_compute; reflexivity. Qed.
+Lemma RADIX_pos : 0 < RADIX. Proof. vm_compute; reflexivity. Qed.
+Lemma W256_lt_58_44 : W256 < 58 ^ 44. Proof. vm_compute; reflexivity. Qed.
+Lemma B58_SIZE_44 : B58_SIZE = 44. Proof. vm_compute; reflexivity. Qed.
 
 (** pinned facts about the generated definitions: a change in the sources breaks these *)
 Lemma gen_pins :
@@ -229,7 +230,699 @@ Proof.
   apply beval_inj in Hv; auto using all_valid_digits; [|rewrite !map_length; auto].
   assert (R : forall s, all_valid s = true ->
               map (fun d => nth (N.to_nat d) ALPHABET 0) (map b58_lookup s) = s).
-  { induction s as [|c s IH]; cbn; intros H; auto.
+  { unfold all_valid. induction s as [|c s IH]; cbn [map forallb]; intros H; auto.
     apply andb_prop in H. destruct H as [Hc Hs]. rewrite alphabet_lookup, IH; auto. }
   rewrite <- (R s1 H1), <- (R s2 H2), Hv. reflexivity.
+Qed.
+
+(** * Multi-word arithmetic *)
+Definition wval (ws : list N) : N := leval W64 ws.
+Definition wfw (ws : list N) : Prop := digits_lt W64 ws.
+
+Lemma mul_add_ww_spec x y c :
+  x < W64 -> y < W64 -> c < W64 ->
+  let '(hi, lo) := mul_add_ww x y c in
+  hi * W64 + lo = x * y + c /\ lo < W64 /\ hi < W64.
+Proof.
+  intros Hx Hy Hc. unfold mul_add_ww.
+  assert (Hxy : x * y <= (W64 - 1) * (W64 - 1)) by (apply N.mul_le_mono; lia).
+  pose proof W64_pos as Hp.
+  assert (Hz : x * y + c < W64 * W64) by nia.
+  rewrite W128_sq.
+  rewrite (N.mod_small (x * y)) by lia.
+  rewrite (N.mod_small (x * y + c)) by lia.
+  set (z := x * y + c) in *.
+  split; [|split].
+  - rewrite (N.div_mod' z W64) at 3. lia.
+  - apply N.mod_lt. lia.
+  - apply N.div_lt_upper_bound; lia.
+Qed.
+
+Lemma fma_loop_spec ws : forall y c,
+  wfw ws -> y < W64 -> c < W64 ->
+  let '(ws', c') := fma_loop ws y c in
+  wval ws' + W64 ^ len ws * c' = wval ws * y + c
+  /\ wfw ws' /\ c' < W64 /\ length ws' = length ws.
+Proof.
+  unfold wval, wfw. induction ws as [|x r IH]; intros y c Hw Hy Hc; cbn [fma_loop].
+  - cbn [leval]. change (@len N []) with 0. rewrite N.pow_0_r. repeat split; auto; lia.
+  - inv Hw.
+    pose proof (mul_add_ww_spec x y c H1 Hy Hc) as M.
+    destruct (mul_add_ww x y c) as [c1 x'] eqn:E1. destruct M as [M1 [M2 M3]].
+    pose proof (IH y c1 H2 Hy M3) as I.
+    destruct (fma_loop r y c1) as [r' c''] eqn:E2. destruct I as [I1 [I2 [I3 I4]]].
+    cbn [leval length]. rewrite len_cons, pow_succ.
+    repeat split; auto.
+    + assert (W64 * (leval W64 r' + W64 ^ len r * c'') = W64 * (leval W64 r * y + c1)) by (f_equal; exact I1).
+      lia.
+    + constructor; auto.
+Qed.
+
+Lemma wval_bound ws : wfw ws -> wval ws < W64 ^ len ws.
+Proof. apply leval_bound. Qed.
+
+Lemma fma_spec ws y r :
+  wfw ws -> y < W64 -> r < W64 ->
+  let '(ws', ok) := fma ws y r in
+  wfw ws' /\ length ws' = length ws
+  /\ (ok = true -> wval ws' = wval ws * y + r)
+  /\ (ok = (wval ws * y + r <? W64 ^ len ws)).
+Proof.
+  intros Hw Hy Hr. unfold fma.
+  pose proof (fma_loop_spec ws y r Hw Hy Hr) as F.
+  destruct (fma_loop ws y r) as [ws' c]. destruct F as [F1 [F2 [F3 F4]]].
+  pose proof (wval_bound ws' F2) as B.
+  assert (L : len ws' = len ws) by (unfold len; rewrite F4; reflexivity).
+  rewrite L in B.
+  assert (P : 0 < W64 ^ len ws) by (apply N.neq_0_lt_0, N.pow_nonzero; pose proof W64_pos; lia).
+  repeat split; auto.
+  - intros Hok. apply N.eqb_eq in Hok. subst c. lia.
+  - destruct (N.eqb_spec c 0) as [->|Hne]; symmetry.
+    + apply N.ltb_lt. lia.
+    + apply N.ltb_ge. assert (W64 ^ len ws * 1 <= W64 ^ len ws * c) by (apply N.mul_le_mono_l; lia). lia.
+Qed.
+
+Lemma is_zero_spec ws : is_zero ws = true <-> wval ws = 0.
+Proof.
+  unfold wval, is_zero. induction ws as [|x r IH]; cbn [forallb leval]; [tauto|].
+  rewrite andb_true_iff, IH, N.eqb_eq. pose proof W64_pos. split.
+  - intros [-> ->]. lia.
+  - intros H0. split; [lia|]. destruct (leval W64 r); [reflexivity|]. exfalso.
+    assert (W64 * 1 <= W64 * N.pos p) by (apply N.mul_le_mono_l; lia). lia.
+Qed.
+
+(** * [chunks] *)
+Lemma chunks_spec n : (0 < n)%nat -> forall fuel l, (length l <= fuel)%nat ->
+  concat (chunks fuel n l) = l
+  /\ Forall (fun ch => (1 <= length ch <= n)%nat) (chunks fuel n l).
+Proof.
+  intros Hn. induction fuel as [|f IH]; intros l Hl; cbn [chunks].
+  - destruct l; cbn in Hl; [|lia]. split; [reflexivity|constructor].
+  - destruct l as [|a l']; [split; [reflexivity|constructor]|].
+    set (l := a :: l') in *.
+    assert (Hsk : (length (skipn n l) <= f)%nat).
+    { rewrite skipn_length. subst l. cbn [length] in *. lia. }
+    destruct (IH (skipn n l) Hsk) as [I1 I2].
+    cbn [concat]. rewrite I1, firstn_skipn. split; [reflexivity|].
+    constructor; auto. rewrite firstn_length. subst l. cbn [length]. lia.
+Qed.
+
+Lemma chunks_exact n : (0 < n)%nat -> forall k fuel l, (length l <= fuel)%nat -> length l = (k * n)%nat ->
+  Forall (fun ch => length ch = n) (chunks fuel n l).
+Proof.
+  intros Hn. induction k as [|k IH]; intros fuel l Hf Hl.
+  - destruct l; [|cbn in Hl; lia]. destruct fuel; constructor.
+  - destruct fuel as [|f]; [cbn in Hl; lia|].
+    destruct l as [|a l']; [constructor|]. cbn [chunks].
+    set (l := a :: l') in *.
+    constructor.
+    + rewrite firstn_length. cbn [Nat.mul] in Hl. lia.
+    + apply IH.
+      * rewrite skipn_length. subst l. cbn [length] in *. lia.
+      * rewrite skipn_length. cbn [Nat.mul] in Hl. lia.
+Qed.
+
+(** * [String32::decode] *)
+Lemma pow58_le a b : a <= b -> 58 ^ a <= 58 ^ b.
+Proof. intros. apply N.pow_le_mono_r; lia. Qed.
+
+Lemma pow58_pos a : 0 < 58 ^ a.
+Proof. apply N.neq_0_lt_0, N.pow_nonzero. lia. Qed.
+
+Lemma chunk_total_spec ch : forall acc k,
+  acc < 58 ^ k -> k + len ch <= 10 ->
+  chunk_total acc ch =
+  if all_valid ch then Ok (acc * 58 ^ len ch + dval ch) else Err BadInput.
+Proof.
+  unfold all_valid. induction ch as [|c r IH]; intros acc k Ha Hk; cbn [chunk_total forallb].
+  - change (@len N []) with 0. rewrite N.pow_0_r. unfold dval. cbn [map]. rewrite beval_nil. f_equal. lia.
+  - rewrite len_cons in Hk.
+    unfold valid at 1. destruct (N.eqb_spec (b58_lookup c) 255) as [E|E]; cbn [negb andb]; [reflexivity|].
+    assert (Hv : b58_lookup c < 58) by (destruct (lookup_range c); lia).
+    assert (Hb : acc * 58 + b58_lookup c < 58 ^ (k + 1)).
+    { rewrite pow_succ. lia. }
+    assert (Hw : 58 ^ (k + 1) <= W64).
+    { pose proof (pow58_le (k + 1) 10 ltac:(lia)). pose proof RADIX_lt_W64. rewrite RADIX_pow in *. lia. }
+    unfold checked_mul64. destruct (N.ltb_spec (acc * 58) W64); [|lia].
+    unfold checked_add64. destruct (N.ltb_spec (acc * 58 + b58_lookup c) W64); [|lia].
+    rewrite (IH _ (k + 1)) by (auto; lia).
+    destruct (forallb valid r); [|reflexivity].
+    f_equal. rewrite dval_cons, len_cons, pow_succ. lia.
+Qed.
+
+Definition okchunk (ch : list N) : Prop := (1 <= length ch <= 10)%nat.
+
+Lemma all_valid_app a b : all_valid (a ++ b) = all_valid a && all_valid b.
+Proof. unfold all_valid. apply forallb_app. Qed.
+
+Lemma decode_loop_spec cs : forall x,
+  wfw x -> Forall okchunk cs ->
+  match decode_loop x cs with
+  | Ok x' => all_valid (concat cs) = true /\ wfw x' /\ length x' = length x
+             /\ wval x' = wval x * 58 ^ len (concat cs) + dval (concat cs)
+  | Err BadInput => all_valid (concat cs) = false
+                    \/ W64 ^ len x <= wval x * 58 ^ len (concat cs) + dval (concat cs)
+  | Err Bug => False
+  end.
+Proof.
+  induction cs as [|ch r IH]; intros x Hx Hcs; cbn [decode_loop concat].
+  - change (@len N []) with 0. rewrite N.pow_0_r. change (dval []) with 0.
+    repeat split; auto. lia.
+  - inv Hcs. rename H1 into Hch, H2 into Hr. unfold okchunk in Hch.
+    rewrite (chunk_total_spec ch 0 0) by (unfold len; cbn; lia).
+    rewrite all_valid_app. destruct (all_valid ch) eqn:Ev; cbn [andb]; [|left; reflexivity].
+    rewrite radii_pow by lia. fold (len ch).
+    assert (Hd : dval ch < 58 ^ len ch) by (apply dval_bound; auto).
+    assert (H10 : 58 ^ len ch <= 58 ^ 10) by (apply pow58_le; unfold len; lia).
+    pose proof RADIX_lt_W64 as HR. rewrite RADIX_pow in HR.
+    pose proof (fma_spec x (58 ^ len ch) (0 * 58 ^ len ch + dval ch) Hx ltac:(lia) ltac:(lia)) as F.
+    destruct (fma x (58 ^ len ch) (0 * 58 ^ len ch + dval ch)) as [x' ok].
+    destruct F as [F1 [F2 [F3 F4]]].
+    rewrite len_app, N.pow_add_r, dval_app.
+    destruct ok.
+    + specialize (F3 eq_refl). specialize (IH x' F1 Hr).
+      destruct (decode_loop x' r) as [x''|[|]]; auto.
+      * destruct IH as [I1 [I2 [I3 I4]]]. repeat split; auto; [congruence|]. rewrite I4, F3. lia.
+      * destruct IH as [I|I]; [left; exact I|right].
+        assert (L : len x' = len x) by (unfold len; rewrite F2; reflexivity).
+        rewrite L, F3 in I. lia.
+    + right. symmetry in F4. apply N.ltb_ge in F4.
+      pose proof (pow58_pos (len (concat r))).
+      assert ((wval x * 58 ^ len ch + (0 * 58 ^ len ch + dval ch)) * 1
+              <= (wval x * 58 ^ len ch + (0 * 58 ^ len ch + dval ch)) * 58 ^ len (concat r))
+        by (apply N.mul_le_mono_l; lia).
+      lia.
+Qed.
+
+(** [to_be_bytes] *)
+Lemma be_bytes_length n : forall v, length (be_bytes n v) = n.
+Proof. induction n as [|n IH]; intros v; cbn [be_bytes]; [reflexivity|]. rewrite app_length, IH. cbn. lia. Qed.
+
+Lemma be_bytes_lt n : forall v, digits_lt 256 (be_bytes n v).
+Proof.
+  unfold digits_lt. induction n as [|n IH]; intros v; cbn [be_bytes]; [constructor|].
+  apply Forall_app. split; [apply IH|]. constructor; [|constructor]. apply N.mod_lt. lia.
+Qed.
+
+Lemma be_bytes_val n : forall v, beval 256 (be_bytes n v) = v mod 256 ^ N.of_nat n.
+Proof.
+  induction n as [|n IH]; intros v; cbn [be_bytes].
+  - rewrite beval_nil. change (N.of_nat 0) with 0. rewrite N.pow_0_r, N.mod_1_r. reflexivity.
+  - rewrite beval_app, IH. change (len [v mod 256]) with 1. rewrite N.pow_1_r.
+    rewrite beval_cons, beval_nil. change (@len N []) with 0. rewrite N.pow_0_r.
+    rewrite Nat2N.inj_succ, <- N.add_1_r, pow_succ.
+    rewrite (N.mod_mul_r v 256 (256 ^ N.of_nat n)); [lia|lia|].
+    apply N.pow_nonzero. lia.
+Qed.
+
+Lemma to_be_bytes_spec ws : wfw ws ->
+  length (to_be_bytes ws) = (8 * length ws)%nat
+  /\ digits_lt 256 (to_be_bytes ws)
+  /\ beval 256 (to_be_bytes ws) = wval ws.
+Proof.
+  unfold to_be_bytes, wval, wfw, digits_lt. induction ws as [|w r IH]; intros H.
+  - cbn. repeat split; auto.
+  - inv H. destruct (IH H3) as [I1 [I2 I3]].
+    cbn [rev]. rewrite map_app, concat_app. cbn [map concat]. rewrite app_nil_r.
+    split; [|split].
+    + rewrite app_length, I1, be_bytes_length. cbn [length]. lia.
+    + apply Forall_app. split; auto. apply be_bytes_lt.
+    + rewrite beval_app, I3, be_bytes_val. unfold len. rewrite be_bytes_length.
+      change (256 ^ N.of_nat 8) with (256 ^ 8). rewrite W64_256.
+      rewrite N.mod_small by auto. cbn [leval]. lia.
+Qed.
+
+Definition is_id (b : list N) : Prop := length b = 32%nat /\ digits_lt 256 b.
+
+Lemma be_bytes_unique b v : is_id b -> beval 256 b = v -> be_bytes 32 v = b.
+Proof.
+  intros [Hl Hb] Hv.
+  apply (beval_inj 256).
+  - rewrite be_bytes_length; auto.
+  - apply be_bytes_lt.
+  - exact Hb.
+  - rewrite be_bytes_val. change (N.of_nat 32) with 32. rewrite N.mod_small; auto.
+    subst v. pose proof (beval_bound 256 b Hb) as B. unfold len in B. rewrite Hl in B. exact B.
+Qed.
+
+Lemma uint_new_wf : wfw uint_new /\ length uint_new = 4%nat /\ wval uint_new = 0.
+Proof.
+  assert (E : uint_new = [0; 0; 0; 0]) by (vm_compute; reflexivity).
+  rewrite E. repeat split; try reflexivity.
+  unfold wfw, digits_lt. repeat constructor; apply W64_pos.
+Qed.
+
+(** Complete functional characterisation of [decode]. *)
+Lemma decode32_spec s :
+  decode32 s = if all_valid s && (dval s <? W256) then Ok (be_bytes 32 (dval s)) else Err BadInput.
+Proof.
+  unfold decode32.
+  destruct (chunks_spec (N.to_nat DECODE_CHUNK) ltac:(vm_compute; lia) (length s) s (le_n _)) as [C1 C2].
+  destruct uint_new_wf as [U1 [U2 U3]].
+  pose proof (decode_loop_spec (chunks (length s) (N.to_nat DECODE_CHUNK) s) uint_new U1) as D.
+  rewrite C1 in D. unfold len at 2 in D. rewrite U2, U3 in D.
+  change (W64 ^ N.of_nat 4) with (W64 ^ 4) in D. rewrite W256_pow in D.
+  rewrite N.mul_0_l, N.add_0_l in D.
+  specialize (D C2).
+  destruct (decode_loop uint_new _) as [x'|[|]].
+  - destruct D as [D1 [D2 [D3 D4]]].
+    destruct (to_be_bytes_spec x' D2) as [T1 [T2 T3]].
+    pose proof (wval_bound x' D2) as B. unfold len in B. rewrite D3 in B.
+    change (W64 ^ N.of_nat 4) with (W64 ^ 4) in B. rewrite W256_pow in B.
+    rewrite D1. cbn [andb]. rewrite <- D4.
+    destruct (N.ltb_spec (wval x') W256); [|lia].
+    f_equal. symmetry. apply be_bytes_unique; auto. split; auto. rewrite T1, D3. reflexivity.
+  - destruct D as [D|D].
+    + rewrite D. reflexivity.
+    + destruct (all_valid s); [|reflexivity]. cbn [andb].
+      destruct (N.ltb_spec (dval s) W256); [lia|reflexivity].
+  - destruct D.
+Qed.
+
+(** * [String32::encode] *)
+
+(** [from_be_bytes] *)
+Lemma beval_chunks8 cs :
+  Forall (fun ch => length ch = 8%nat) cs ->
+  beval W64 (map (beval 256) cs) = beval 256 (concat cs)
+  /\ len (concat cs) = 8 * len cs.
+Proof.
+  induction 1 as [|c cs Hc Hcs [IH1 IH2]]; cbn [map concat].
+  - split; reflexivity.
+  - rewrite beval_cons, beval_app, len_map, IH1, len_app, IH2, len_cons.
+    split; [|unfold len at 1; rewrite Hc; lia].
+    rewrite N.pow_mul_r, W64_256. reflexivity.
+Qed.
+
+Lemma from_be_bytes_spec b : is_id b ->
+  wfw (from_be_bytes b) /\ length (from_be_bytes b) = 4%nat /\ wval (from_be_bytes b) = beval 256 b.
+Proof.
+  intros [Hl Hb]. unfold from_be_bytes.
+  destruct (chunks_spec 8 ltac:(lia) (length b) b (le_n _)) as [C1 C2].
+  pose proof (chunks_exact 8 ltac:(lia) 4 (length b) b (le_n _) ltac:(rewrite Hl; reflexivity)) as C3.
+  set (cs := chunks (length b) 8 b) in *.
+  destruct (beval_chunks8 cs C3) as [V1 V2].
+  split; [|split].
+  - apply digits_lt_rev. unfold digits_lt. rewrite Forall_forall. intros w Hw.
+    apply in_map_iff in Hw. destruct Hw as [ch [<- Hch]].
+    rewrite Forall_forall in C3. specialize (C3 ch Hch).
+    assert (Dch : digits_lt 256 ch).
+    { unfold digits_lt in *. rewrite Forall_forall in *. intros d Hd. apply Hb.
+      rewrite <- C1. apply in_concat. exists ch. split; auto. }
+    pose proof (beval_bound 256 ch Dch) as B. unfold len in B. rewrite C3 in B.
+    change (256 ^ N.of_nat 8) with (256 ^ 8) in B. rewrite W64_256 in B. exact B.
+  - rewrite rev_length, map_length.
+    rewrite C1 in V2. unfold len in V2. rewrite Hl in V2. lia.
+  - unfold wval. rewrite leval_rev, rev_involutive, V1, C1. reflexivity.
+Qed.
+
+(** [quo_radix] *)
+Lemma div_ww_spec r x : r < RADIX -> x < W64 ->
+  exists q r', div_ww r x RADIX = Some (q, r')
+  /\ q * RADIX + r' = r * W64 + x /\ r' < RADIX /\ q < W64.
+Proof.
+  intros Hr Hx. unfold div_ww. pose proof RADIX_pos as HR.
+  destruct (N.ltb_spec r RADIX); [|lia].
+  set (z := r * W64 + x).
+  exists (z / RADIX), (z mod RADIX). split; [reflexivity|].
+  split; [|split].
+  - rewrite (N.div_mod' z RADIX) at 3. lia.
+  - apply N.mod_lt. lia.
+  - apply N.div_lt_upper_bound; [lia|]. subst z.
+    assert (RADIX * W64 >= (r + 1) * W64) by (apply N.le_ge, N.mul_le_mono_r; lia). lia.
+Qed.
+
+Lemma quo_loop_spec ws : forall r,
+  digits_lt W64 ws -> r < RADIX ->
+  exists qs r', quo_loop ws r = Some (qs, r')
+  /\ beval W64 qs * RADIX + r' = r * W64 ^ len ws + beval W64 ws
+  /\ r' < RADIX /\ digits_lt W64 qs /\ length qs = length ws.
+Proof.
+  induction ws as [|x t IH]; intros r Hw Hr; cbn [quo_loop].
+  - exists [], r. change (@len N []) with 0. rewrite N.pow_0_r, beval_nil. repeat split; auto; try lia; try constructor.
+  - inv Hw. destruct (div_ww_spec r x Hr H1) as [q [r1 [E [D1 [D2 D3]]]]]. rewrite E.
+    destruct (IH r1 H2 D2) as [t' [r2 [E2 [I1 [I2 [I3 I4]]]]]]. rewrite E2.
+    exists (q :: t'), r2. split; [reflexivity|].
+    repeat split; auto; try (constructor; auto; fail); try (cbn [length]; lia).
+    rewrite !beval_cons, len_cons, pow_succ.
+    assert (L : len t' = len t) by (unfold len; rewrite I4; reflexivity). rewrite L.
+    assert ((q * RADIX + r1) * W64 ^ len t = (r * W64 + x) * W64 ^ len t) by (f_equal; exact D1).
+    lia.
+Qed.
+
+Lemma quo_radix_spec ws : wfw ws ->
+  exists ws' r, quo_radix ws = Some (ws', r)
+  /\ wval ws' * RADIX + r = wval ws /\ r < RADIX /\ wfw ws' /\ length ws' = length ws.
+Proof.
+  intros Hw. unfold quo_radix.
+  destruct (quo_loop_spec (rev ws) 0 (digits_lt_rev _ _ Hw) RADIX_pos) as [qs [r [E [Q1 [Q2 [Q3 Q4]]]]]].
+  rewrite E. exists (rev qs), r. split; [reflexivity|].
+  unfold wval, wfw. rewrite !leval_rev, rev_involutive.
+  repeat split; auto using digits_lt_rev; try lia.
+  rewrite rev_length, Q4, rev_length. reflexivity.
+Qed.
+
+(** the emit loops *)
+Definition tot (r : N) (st : estate) : N := r * 58 ^ len (eout st) + dval (eout st).
+Definition st_ok (st : estate) : Prop := ei st + len (eout st) = 44 /\ all_valid (eout st) = true.
+
+Lemma emit_spec r st : st_ok st -> ei st <> 0 ->
+  exists st', emit r st = Some st' /\ st_ok st' /\ tot (r / 58) st' = tot r st
+  /\ len (eout st') = len (eout st) + 1.
+Proof.
+  intros [S1 S2] Hi. unfold emit. destruct (N.eqb_spec (ei st) 0); [contradiction|].
+  eexists. split; [reflexivity|]. unfold st_ok, tot. cbn [ei eout].
+  assert (Hm : r mod 58 < 58) by (apply N.mod_lt; lia).
+  rewrite len_cons, dval_cons, lookup_alphabet by auto. rewrite pow_succ.
+  repeat split; auto.
+  - lia.
+  - unfold all_valid in *. cbn [forallb]. rewrite valid_nth by auto. exact S2.
+  - rewrite (N.div_mod' r 58) at 3. lia.
+Qed.
+
+Lemma emit_n_spec n : forall r st, st_ok st -> N.of_nat n <= ei st ->
+  exists st', emit_n n r st = EOk st' /\ st_ok st' /\ tot (r / 58 ^ N.of_nat n) st' = tot r st
+  /\ len (eout st') = len (eout st) + N.of_nat n.
+Proof.
+  induction n as [|n IH]; intros r st Hs Hi; cbn [emit_n].
+  - exists st. change (N.of_nat 0) with 0. rewrite N.pow_0_r, N.div_1_r. repeat split; try apply Hs; auto; lia.
+  - destruct (emit_spec r st Hs ltac:(lia)) as [st1 [E [S1 [T1 L1]]]]. rewrite E.
+    assert (Hi1 : N.of_nat n <= ei st1).
+    { destruct Hs as [A _]. destruct S1 as [B _]. lia. }
+    destruct (IH (r / 58) st1 S1 Hi1) as [st2 [E2 [S2 [T2 L2]]]].
+    exists st2. split; [exact E2|]. repeat split; try apply S2.
+    + rewrite Nat2N.inj_succ, <- N.add_1_r, pow_succ, <- N.div_div by (try apply N.pow_nonzero; lia).
+      rewrite T2, T1. reflexivity.
+    + lia.
+Qed.
+
+Lemma pow58_lt_inv a b : 58 ^ a < 58 ^ b -> a < b.
+Proof. intros H. apply (N.pow_lt_mono_r_iff 58); [lia|exact H]. Qed.
+
+Lemma emit_while_spec fuel : forall r st,
+  st_ok st -> r < 58 ^ N.of_nat fuel -> tot r st < 58 ^ 44 ->
+  exists st', emit_while fuel r st = EOk st' /\ st_ok st' /\ tot 0 st' = tot r st.
+Proof.
+  induction fuel as [|f IH]; intros r st Hs Hr Ht; cbn [emit_while].
+  - change (N.of_nat 0) with 0 in Hr. rewrite N.pow_0_r in Hr.
+    destruct (N.eqb_spec r 0); [|lia]. subst r. exists st. auto.
+  - destruct (N.eqb_spec r 0) as [->|Hne]; [exists st; auto|].
+    assert (Hi : ei st <> 0).
+    { destruct Hs as [A _]. unfold tot in Ht.
+      assert (1 * 58 ^ len (eout st) <= r * 58 ^ len (eout st)) by (apply N.mul_le_mono_r; lia).
+      assert (L : len (eout st) < 44) by (apply pow58_lt_inv; lia). lia. }
+    destruct (emit_spec r st Hs Hi) as [st1 [E [S1 [T1 L1]]]]. rewrite E.
+    rewrite Nat2N.inj_succ, <- N.add_1_r, pow_succ in Hr.
+    destruct (IH (r / 58) st1 S1) as [st2 [E2 [S2 T2]]].
+    + apply N.div_lt_upper_bound; lia.
+    + rewrite T1. exact Ht.
+    + exists st2. split; [exact E2|]. split; auto. rewrite T2, T1. reflexivity.
+Qed.
+
+Lemma enc_loop_spec x0 fuel : forall x st,
+  wfw x -> st_ok st -> wval x * 58 ^ len (eout st) + dval (eout st) = x0 ->
+  x0 < 58 ^ 44 -> wval x < RADIX ^ N.of_nat fuel ->
+  exists st', enc_loop fuel x st = EOk st' /\ st_ok st' /\ dval (eout st') = x0.
+Proof.
+  induction fuel as [|f IH]; intros x st Hw Hs Hinv Hx0 Hfuel.
+  - change (N.of_nat 0) with 0 in Hfuel. rewrite N.pow_0_r in Hfuel.
+    assert (Z : wval x = 0) by lia. cbn [enc_loop].
+    apply is_zero_spec in Z as Z'. rewrite Z'. exists st. rewrite Z in Hinv. split; [reflexivity|]. split; auto; lia.
+  - cbn [enc_loop]. destruct (is_zero x) eqn:Ez.
+    { apply is_zero_spec in Ez. rewrite Ez in Hinv. exists st. split; [reflexivity|]. split; auto; lia. }
+    destruct (quo_radix_spec x Hw) as [x' [r [E [Q1 [Q2 [Q3 Q4]]]]]]. rewrite E.
+    assert (Hx' : wval x' < RADIX ^ N.of_nat f).
+    { rewrite Nat2N.inj_succ, <- N.add_1_r, pow_succ in Hfuel.
+      apply (N.mul_lt_mono_pos_l RADIX); [apply RADIX_pos|]. lia. }
+    set (L := len (eout st)) in *.
+    destruct (is_zero x') eqn:Ez'.
+    + apply is_zero_spec in Ez'. rewrite Ez', N.mul_0_l, N.add_0_l in Q1.
+      destruct (emit_while_spec 64 r st Hs) as [st1 [E1 [S1 T1]]].
+      * pose proof (pow58_le 10 (N.of_nat 64) ltac:(lia)). rewrite RADIX_pow in Q2. lia.
+      * unfold tot. fold L. rewrite Q1. lia.
+      * rewrite E1.
+        apply (IH x' st1); auto.
+        -- rewrite Ez', N.mul_0_l, N.add_0_l.
+           unfold tot in T1. fold L in T1. rewrite N.mul_0_l, N.add_0_l in T1. rewrite T1, Q1. exact Hinv.
+    + assert (Hnz : wval x' <> 0) by (intros C; apply is_zero_spec in C; congruence).
+      assert (HL : L + 10 < 44).
+      { apply pow58_lt_inv. rewrite N.pow_add_r, <- RADIX_pow.
+        assert (1 * (58 ^ L * RADIX) <= wval x' * (58 ^ L * RADIX)) by (apply N.mul_le_mono_r; lia).
+        pose proof Hinv as Hinv'. rewrite <- Q1 in Hinv'. lia. }
+      destruct (emit_n_spec (N.to_nat ENCODE_CHUNK) r st Hs) as [st1 [E1 [S1 [T1 L1]]]].
+      * destruct Hs as [A _]. fold L in A. change (N.of_nat (N.to_nat ENCODE_CHUNK)) with 10. lia.
+      * rewrite E1. change (N.of_nat (N.to_nat ENCODE_CHUNK)) with 10 in *.
+        apply (IH x' st1); auto.
+        rewrite <- RADIX_pow, N.div_small in T1 by exact Q2.
+        unfold tot in T1. fold L in T1. rewrite N.mul_0_l, N.add_0_l in T1.
+        rewrite L1, T1, N.pow_add_r, <- RADIX_pow. fold L. rewrite <- Q1 in Hinv. lia.
+Qed.
+
+Lemma dval_fill n s : dval (repeat FILL n ++ s) = dval s.
+Proof.
+  unfold dval. rewrite map_app.
+  assert (R : map b58_lookup (repeat FILL n) = repeat 0 n).
+  { induction n as [|n IH]; cbn [repeat map]; [reflexivity|]. rewrite IH, lookup_fill. reflexivity. }
+  rewrite R. apply beval_repeat0.
+Qed.
+
+Lemma all_valid_fill n : all_valid (repeat FILL n) = true.
+Proof. unfold all_valid. induction n; cbn [repeat forallb]; auto. Qed.
+
+(** [encode] never panics and produces the 44-digit text whose value is the id. *)
+Lemma encode32_spec b : is_id b ->
+  exists s, encode32 b = EOk s /\ length s = 44%nat /\ all_valid s = true /\ dval s = beval 256 b.
+Proof.
+  intros Hid. destruct (from_be_bytes_spec b Hid) as [F1 [F2 F3]].
+  assert (Hb : beval 256 b < W256).
+  { destruct Hid as [Hl Hd]. pose proof (beval_bound 256 b Hd) as B. unfold len in B. rewrite Hl in B.
+    change (N.of_nat 32) with 32 in B. rewrite W256_256 in B. exact B. }
+  pose proof W256_lt_58_44 as H44.
+  unfold encode32.
+  destruct (enc_loop_spec (beval 256 b) 64 (from_be_bytes b) {| ei := B58_SIZE; eout := [] |}) as [st [E [[S1 S2] V]]]; auto.
+  - split; [reflexivity|reflexivity].
+  - cbn [eout]. change (@len N []) with 0. change (dval []) with 0. rewrite N.pow_0_r. lia.
+  - lia.
+  - rewrite F3.
+    assert (W256 <= RADIX ^ N.of_nat 64) by (vm_compute; discriminate). lia.
+  - rewrite E. eexists. split; [reflexivity|].
+    split; [|split].
+    + rewrite app_length, repeat_length. unfold len in S1. lia.
+    + rewrite all_valid_app, all_valid_fill, S2. reflexivity.
+    + rewrite dval_fill. exact V.
+Qed.
+
+(** * The round trip *)
+Lemma b58_roundtrip_id b : is_id b ->
+  exists s, encode32 b = EOk s /\ length s = 44%nat /\ Forall (fun c => In c ALPHABET) s
+            /\ dval s = beval 256 b /\ decode32 s = Ok b.
+Proof.
+  intros Hid. destruct (encode32_spec b Hid) as [s [E [L [V D]]]].
+  exists s. repeat split; auto.
+  - apply Forall_forall. intros c Hc. apply valid_in_alphabet.
+    unfold all_valid in V. rewrite forallb_forall in V. auto.
+  - rewrite decode32_spec, V, D. cbn [andb].
+    assert (Hb : beval 256 b < W256).
+    { destruct Hid as [Hl Hd]. pose proof (beval_bound 256 b Hd) as B. unfold len in B. rewrite Hl in B.
+      change (N.of_nat 32) with 32 in B. rewrite W256_256 in B. exact B. }
+    destruct (N.ltb_spec (beval 256 b) W256); [|lia].
+    f_equal. apply be_bytes_unique; auto.
+Qed.
+
+(** * Statements about crates/aranya-id/src/id.rs *)
+
+Definition in_alphabet (s : list N) : Prop := Forall (fun c => In c ALPHABET) s.
+
+Lemma all_valid_alphabet s : all_valid s = true <-> in_alphabet s.
+Proof.
+  unfold all_valid, in_alphabet. rewrite forallb_forall, Forall_forall.
+  split; intros H c Hc; apply valid_in_alphabet; auto.
+Qed.
+
+Lemma is_id_be_bytes v : is_id (be_bytes 32 v).
+Proof. split; [apply be_bytes_length|apply be_bytes_lt]. Qed.
+
+(** ** Text *)
+
+(** Every id prints as 44 alphabet characters that parse back to it. *)
+Definition id_text_roundtrip_stmt : Prop :=
+  forall b, is_id b ->
+  exists s, id_to_base58 b = EOk s
+            /\ length s = 44%nat /\ in_alphabet s /\ dval s = beval 256 b
+            /\ id_from_str s = Ok b /\ id_decode s = Ok b.
+Lemma id_text_roundtrip_proof : id_text_roundtrip_stmt.
+Proof.
+  intros b Hb. destruct (b58_roundtrip_id b Hb) as [s [E [L [A [V D]]]]].
+  exists s. unfold id_to_base58, id_from_str, id_decode. repeat split; auto.
+Qed.
+
+(** The same at the level of numbers: all [x < 2^256]. *)
+Definition b58_roundtrip_stmt : Prop :=
+  forall x, x < 2 ^ 256 ->
+  exists s, encode32 (be_bytes 32 x) = EOk s /\ length s = 44%nat /\ in_alphabet s
+            /\ dval s = x /\ decode32 s = Ok (be_bytes 32 x).
+Lemma b58_roundtrip_proof : b58_roundtrip_stmt.
+Proof.
+  intros x Hx. change (2 ^ 256) with W256 in Hx.
+  destruct (b58_roundtrip_id _ (is_id_be_bytes x)) as [s [E [L [A [V D]]]]].
+  exists s. repeat split; auto.
+  rewrite V, be_bytes_val. change (N.of_nat 32) with 32. rewrite W256_256. apply N.mod_small; auto.
+Qed.
+
+(** What [decode] / [FromStr] do on *any* byte string: a total classification. *)
+Definition id_decode_spec_stmt : Prop :=
+  forall s, id_decode s =
+            if all_valid s && (dval s <? 2 ^ 256) then Ok (be_bytes 32 (dval s)) else Err BadInput.
+Lemma id_decode_spec_proof : id_decode_spec_stmt.
+Proof. intros s. unfold id_decode. change (2 ^ 256) with W256. apply decode32_spec. Qed.
+
+(** "parsing other text either fails cleanly or yields the id it encodes" *)
+Definition id_parse_sound_stmt : Prop :=
+  forall s,
+  (id_from_str s = Err BadInput /\ ((exists c, In c s /\ ~ In c ALPHABET) \/ 2 ^ 256 <= dval s))
+  \/ (exists b, id_from_str s = Ok b /\ is_id b /\ in_alphabet s /\ beval 256 b = dval s /\ dval s < 2 ^ 256).
+Lemma id_parse_sound_proof : id_parse_sound_stmt.
+Proof.
+  intros s. unfold id_from_str. rewrite id_decode_spec_proof.
+  destruct (all_valid s) eqn:Ev; cbn [andb].
+  - destruct (N.ltb_spec (dval s) (2 ^ 256)) as [Hlt|Hge].
+    + right. eexists. split; [reflexivity|]. split; [apply is_id_be_bytes|].
+      split; [apply all_valid_alphabet; auto|]. split; auto.
+      rewrite be_bytes_val. change (N.of_nat 32) with 32. rewrite W256_256. apply N.mod_small. exact Hlt.
+    + left. split; auto.
+  - left. split; auto. left.
+    unfold all_valid in Ev.
+    assert (exists c, In c s /\ valid c = false) as [c [Hc Hv]].
+    { clear -Ev. induction s as [|c s IH]; cbn [forallb] in Ev; [discriminate|].
+      destruct (valid c) eqn:E; cbn [andb] in Ev.
+      - destruct (IH Ev) as [c' [H1 H2]]. exists c'. split; auto. right; auto.
+      - exists c. split; auto. left; auto. }
+    exists c. split; auto. intros Hin. apply valid_in_alphabet in Hin. congruence.
+Qed.
+
+(** The printed form is canonical: it is the only 44-character alphabet text with the id's value. *)
+Definition id_display_canonical_stmt : Prop :=
+  forall b s s', is_id b -> id_to_base58 b = EOk s ->
+  length s' = 44%nat -> in_alphabet s' -> dval s' = beval 256 b -> s' = s.
+Lemma id_display_canonical_proof : id_display_canonical_stmt.
+Proof.
+  intros b s s' Hb E L A V.
+  destruct (id_text_roundtrip_proof b Hb) as [s0 [E0 [L0 [A0 [V0 _]]]]].
+  rewrite E in E0. inv E0.
+  apply dval_inj; try apply all_valid_alphabet; auto; congruence.
+Qed.
+
+(** Different ids print differently (the text determines the id). *)
+Definition id_display_injective_stmt : Prop :=
+  forall b1 b2 s, is_id b1 -> is_id b2 -> id_to_base58 b1 = EOk s -> id_to_base58 b2 = EOk s -> b1 = b2.
+Lemma id_display_injective_proof : id_display_injective_stmt.
+Proof.
+  intros b1 b2 s H1 H2 E1 E2.
+  destruct (id_text_roundtrip_proof b1 H1) as [s1 [F1 [_ [_ [_ [_ D1]]]]]].
+  destruct (id_text_roundtrip_proof b2 H2) as [s2 [F2 [_ [_ [_ [_ D2]]]]]].
+  rewrite E1 in F1. rewrite E2 in F2. inv F1. inv F2. congruence.
+Qed.
+
+(** ** serde *)
+Lemma visit_seq_spec n : forall i l,
+  visit_seq n i l = if (n <=? length l)%nat then DOk (firstn n l) else DErr (InvalidLength (i + len l)).
+Proof.
+  induction n as [|n IH]; intros i l; cbn [visit_seq].
+  - reflexivity.
+  - destruct l as [|e r].
+    + cbn [length Nat.leb]. change (@len N []) with 0. rewrite N.add_0_r. reflexivity.
+    + rewrite IH. cbn [length Nat.leb firstn]. destruct (n <=? length r)%nat; [reflexivity|].
+      rewrite len_cons. f_equal. f_equal. lia.
+Qed.
+
+Definition serde_roundtrip_stmt : Prop :=
+  forall b, is_id b ->
+  (* human readable: the base58 text *)
+  (exists s, id_serialize true b = EOk (PStr s) /\ id_to_base58 b = EOk s
+             /\ id_deserialize true (PStr s) = DOk b)
+  (* binary: the 32 raw bytes, as a byte string or as a sequence *)
+  /\ id_serialize false b = EOk (PBytes b)
+  /\ id_deserialize false (PBytes b) = DOk b
+  /\ id_deserialize false (PSeq b) = DOk b
+  (* postcard: length prefix 32, then the bytes; trailing input is left alone *)
+  /\ pc_serialize b = EOk (32 :: b)
+  /\ forall rest, pc_deserialize (32 :: b ++ rest) = PcOk b.
+Lemma serde_roundtrip_proof : serde_roundtrip_stmt.
+Proof.
+  intros b Hb. destruct (id_text_roundtrip_proof b Hb) as [s [E [_ [_ [_ [F _]]]]]].
+  destruct Hb as [Hl Hd].
+  assert (Hlen : len b =? ID_BYTES = true) by (unfold len; rewrite Hl; reflexivity).
+  split; [|split; [|split; [|split; [|split]]]].
+  - exists s. unfold id_serialize, id_deserialize. rewrite E, F. auto.
+  - reflexivity.
+  - unfold id_deserialize. rewrite Hlen. reflexivity.
+  - unfold id_deserialize. rewrite visit_seq_spec. change (N.to_nat ID_BYTES) with 32%nat.
+    rewrite <- Hl, Nat.leb_refl, firstn_all. reflexivity.
+  - unfold pc_serialize, id_serialize, pc_serialize_bytes. unfold len. rewrite Hl. reflexivity.
+  - intros rest. unfold pc_deserialize.
+    change (take_varint 10 0 0 (32 :: b ++ rest)) with (@inl (option (N * list N)) pcerr (Some (32, b ++ rest))).
+    cbv iota beta.
+    assert (L : len (b ++ rest) <? 32 = false).
+    { apply N.ltb_ge. rewrite len_app. unfold len at 1. rewrite Hl. lia. }
+    rewrite L. change (N.to_nat 32) with 32%nat.
+    rewrite <- Hl at 1. rewrite firstn_app, firstn_all, Nat.sub_diag, firstn_O, app_nil_r.
+    unfold id_deserialize. rewrite Hlen. reflexivity.
+Qed.
+
+(** Binary input of any other length is rejected; the other payload kinds are type errors;
+    anything accepted is exactly the payload's 32 bytes. *)
+Definition serde_reject_stmt : Prop :=
+  (forall v, length v <> 32%nat -> id_deserialize false (PBytes v) = DErr (InvalidLength (len v)))
+  /\ (forall l, (length l < 32)%nat -> id_deserialize false (PSeq l) = DErr (InvalidLength (len l)))
+  /\ (forall p b, id_deserialize false p = DOk b ->
+        length b = 32%nat /\ (p = PBytes b \/ exists rest, p = PSeq (b ++ rest)))
+  /\ (forall p b, id_deserialize true p = DOk b -> exists s, p = PStr s /\ id_from_str s = Ok b)
+  /\ (forall p, id_deserialize true p <> DErr Custom)
+  /\ (forall buf b, pc_deserialize buf = PcOk b ->
+        length b = 32%nat /\ exists rest, take_varint 10 0 0 buf = inl (Some (32, b ++ rest))).
+Lemma serde_reject_proof : serde_reject_stmt.
+Proof.
+  split; [|split; [|split; [|split; [|split]]]].
+  - intros v Hv. unfold id_deserialize.
+    destruct (N.eqb_spec (len v) ID_BYTES) as [E|E]; [|reflexivity].
+    exfalso. apply Hv. unfold len in E. change ID_BYTES with 32 in E. lia.
+  - intros l Hl. unfold id_deserialize. rewrite visit_seq_spec. change (N.to_nat ID_BYTES) with 32%nat.
+    destruct (Nat.leb_spec 32 (length l)); [lia|]. reflexivity.
+  - intros p b H. unfold id_deserialize in H. destruct p as [s|v|l|]; try discriminate.
+    + destruct (N.eqb_spec (len v) ID_BYTES) as [E|E]; [|discriminate]. inv H.
+      unfold len in E. change ID_BYTES with 32 in E. split; [lia|auto].
+    + rewrite visit_seq_spec in H. change (N.to_nat ID_BYTES) with 32%nat in H.
+      destruct (Nat.leb_spec 32 (length l)); [|discriminate].
+      assert (Eb : b = firstn 32 l) by congruence. subst b. clear H.
+      split; [rewrite firstn_length; lia|]. right. exists (skipn 32 l). rewrite firstn_skipn. reflexivity.
+  - intros p b H. unfold id_deserialize in H. destruct p as [s|v|l|]; try discriminate.
+    exists s. split; auto. destruct (id_from_str s) as [x|[|]]; try discriminate. inv H. reflexivity.
+  - intros p H. unfold id_deserialize in H. destruct p as [s|v|l|]; try discriminate.
+    unfold id_from_str in H. rewrite id_decode_spec_proof in H.
+    destruct (all_valid s && (dval s <? 2 ^ 256)); discriminate.
+  - intros buf b H. unfold pc_deserialize in H.
+    destruct (take_varint 10 0 0 buf) as [[[sz rest]|]|e] eqn:T; try discriminate.
+    destruct (N.ltb_spec (len rest) sz); [discriminate|].
+    unfold id_deserialize in H.
+    destruct (N.eqb_spec (len (firstn (N.to_nat sz) rest)) ID_BYTES) as [E|E]; [|discriminate].
+    inv H. unfold len in E. change ID_BYTES with 32 in E.
+    split; [lia|].
+    rewrite firstn_length in E. unfold len in H0.
+    assert (sz = 32) by lia. subst sz.
+    exists (skipn 32 rest). change (N.to_nat 32) with 32%nat. rewrite firstn_skipn. reflexivity.
+Qed.
+
+(** * Non-vacuity *)
+Example id_example :
+  let b := repeat 255 32 in
+  is_id b
+  /\ id_to_base58 b = EOk [74; 69; 75; 78; 86; 110; 107; 98; 111; 51; 106; 109; 97; 53; 110; 82; 69; 66; 66; 74; 67; 68;
+                           111; 88; 70; 86; 101; 75; 107; 68; 53; 54; 86; 51; 120; 75; 114; 118; 82; 109; 87; 120; 70; 71]
+  /\ id_from_str [53; 81] = Ok (repeat 0 31 ++ [255])           (* "5Q" = 255: short text is accepted *)
+  /\ id_from_str (repeat 122 44) = Err BadInput               (* "zzz…" overflows 2^256 *)
+  /\ id_from_str [48] = Err BadInput                          (* '0' is not in the alphabet *)
+  /\ pc_deserialize (31 :: repeat 7 40) = PcErr PcCustom.
+Proof.
+  cbv zeta. split; [split; [reflexivity|repeat constructor]|].
+  repeat split; vm_compute; reflexivity.
 Qed.
